@@ -19,6 +19,7 @@ import CompmechVerif.Spec.WholeMatrix
 import CompmechVerif.Spec.WholeMatrixPSD
 import CompmechVerif.Spec.PSDExample
 import CompmechVerif.Spec.LaminateWeight
+import CompmechVerif.Spec.BardellIntegrals
 import Mathlib.Tactic.FinCases
 import Mathlib.Data.Fintype.Basic
 
@@ -455,5 +456,57 @@ example (s m n row0 : Nat) (v : Nat → ℝ) :
     (fun sec _ => mul_nonneg (by norm_num [unitBase]) (section_b_pos s sec).le)
     (fun _ => mono) (fun _ => mono) (fun _ => -1) (fun _ => 1) (fun _ => -1) (fun _ => 1) (fun _ _ => monoI_real _ _)
     m n row0 v
+
+/-! ### … instantiated at the package's own basis
+
+`bardellI ξ₁ ξ₂ η₁ η₂` (Spec/BardellIntegrals.lean): the exact REAL integrals of products of (derivatives of) the Bardell polynomials with
+unit flags — whole edge, section `[ξ₁, ξ₂]`, strip `[η₁, η₂]`.  For it the hypotheses `I.Comm` and `RealIntegrals` are theorems, so the
+positive semi-definiteness of the constitutive stiffness holds for the actual basis of the package with only `a, b (, r) ≠ 0`, `a·b ≥ 0`
+and a positive semi-definite laminate matrix (C01 `abd_posdef` through `abd_weight_psd`) left as hypotheses. -/
+
+open Compmech.Asm in
+theorem k0_matrix_psd_bardell_plate (base : PCtx ℝ) (ha : base.a ≠ 0) (hb : base.b ≠ 0) (hF : IsABD base.F) (hpsd : WeightPSD base.F)
+    (hab : 0 ≤ base.a * base.b) (ξ₁ ξ₂ η₁ η₂ : ℝ) (m n row0 : Nat) (v : Nat → ℝ) :
+    0 ≤ ∑ r ∈ Finset.range (3 * m * n), ∑ c ∈ Finset.range (3 * m * n),
+      v (row0 + r) * toFun (panelCoo 3 m n row0 Plate.fk0.entry base (bardellI ξ₁ ξ₂ η₁ η₂)) (row0 + r) (row0 + c) * v (row0 + c) :=
+  k0_matrix_psd_plate base _ (bardellI_comm ξ₁ ξ₂ η₁ η₂) ha hb hF hpsd hab bfun bfun (-1) 1 (-1) 1
+    (bardellI_real_full_full ξ₁ ξ₂ η₁ η₂) m n row0 v
+
+open Compmech.Asm in
+theorem k0y1y2_matrix_psd_bardell_plate (base : PCtx ℝ) (ha : base.a ≠ 0) (hb : base.b ≠ 0) (hF : IsABD base.F) (hpsd : WeightPSD base.F)
+    (hab : 0 ≤ base.a * base.b) (ξ₁ ξ₂ η₁ η₂ : ℝ) (hη : η₁ ≤ η₂) (m n row0 : Nat) (v : Nat → ℝ) :
+    0 ≤ ∑ r ∈ Finset.range (3 * m * n), ∑ c ∈ Finset.range (3 * m * n),
+      v (row0 + r) * toFun (panelCooYX 3 m n row0 Plate.fk0y1y2.entry base (bardellI ξ₁ ξ₂ η₁ η₂)) (row0 + r) (row0 + c) * v (row0 + c) :=
+  k0y1y2_matrix_psd_plate base _ (bardellI_comm ξ₁ ξ₂ η₁ η₂) ha hb hF hpsd hab bfun bfun (-1) 1 η₁ η₂
+    (bardellI_real_full_sub ξ₁ ξ₂ η₁ η₂ hη) m n row0 v
+
+open Compmech.Asm in
+theorem k0_matrix_psd_bardell_cpanel (base : PCtx ℝ) (ha : base.a ≠ 0) (hb : base.b ≠ 0) (hr : base.r ≠ 0) (hF : IsABD base.F)
+    (hpsd : WeightPSD base.F) (hab : 0 ≤ base.a * base.b) (ξ₁ ξ₂ η₁ η₂ : ℝ) (m n row0 : Nat) (v : Nat → ℝ) :
+    0 ≤ ∑ r ∈ Finset.range (3 * m * n), ∑ c ∈ Finset.range (3 * m * n),
+      v (row0 + r) * toFun (panelCoo 3 m n row0 CPanel.fk0.entry base (bardellI ξ₁ ξ₂ η₁ η₂)) (row0 + r) (row0 + c) * v (row0 + c) :=
+  k0_matrix_psd_cpanel base _ (bardellI_comm ξ₁ ξ₂ η₁ η₂) ha hb hr hF hpsd hab bfun bfun (-1) 1 (-1) 1
+    (bardellI_real_full_full ξ₁ ξ₂ η₁ η₂) m n row0 v
+
+open Compmech.Asm in
+theorem k0y1y2_matrix_psd_bardell_cpanel (base : PCtx ℝ) (ha : base.a ≠ 0) (hb : base.b ≠ 0) (hr : base.r ≠ 0) (hF : IsABD base.F)
+    (hpsd : WeightPSD base.F) (hab : 0 ≤ base.a * base.b) (ξ₁ ξ₂ η₁ η₂ : ℝ) (hη : η₁ ≤ η₂) (m n row0 : Nat) (v : Nat → ℝ) :
+    0 ≤ ∑ r ∈ Finset.range (3 * m * n), ∑ c ∈ Finset.range (3 * m * n),
+      v (row0 + r) * toFun (panelCooYX 3 m n row0 CPanel.fk0y1y2.entry base (bardellI ξ₁ ξ₂ η₁ η₂)) (row0 + r) (row0 + c) * v (row0 + c) :=
+  k0y1y2_matrix_psd_cpanel base _ (bardellI_comm ξ₁ ξ₂ η₁ η₂) ha hb hr hF hpsd hab bfun bfun (-1) 1 η₁ η₂
+    (bardellI_real_full_sub ξ₁ ξ₂ η₁ η₂ hη) m n row0 v
+
+open Compmech.Asm in
+/-- conical panel: section `sec` integrates over `[ξ₁ sec, ξ₂ sec] × [−1, 1]` with its own constant radius -/
+theorem k0_matrix_psd_bardell_kpanel (base : PCtx ℝ) (s : Nat) (ha : base.a ≠ 0) (hb : ∀ sec, (sectionBase base s sec).b ≠ 0)
+    (hr : ∀ sec, (sectionBase base s sec).r ≠ 0) (hF : IsABD base.F) (hpsd : WeightPSD base.F)
+    (hab : ∀ sec, sec < s → 0 ≤ base.a * (sectionBase base s sec).b)
+    (ξ₁ ξ₂ : Nat → ℝ) (hξ : ∀ sec, sec < s → ξ₁ sec ≤ ξ₂ sec) (η₁ η₂ : ℝ) (m n row0 : Nat) (v : Nat → ℝ) :
+    0 ≤ ∑ r ∈ Finset.range (3 * m * n), ∑ c ∈ Finset.range (3 * m * n),
+      v (row0 + r) * toFun (conePanelCoo s 3 m n row0 KPanel.fk0.entry base fun sec => bardellI (ξ₁ sec) (ξ₂ sec) η₁ η₂)
+        (row0 + r) (row0 + c) * v (row0 + c) :=
+  k0_matrix_psd_kpanel base _ (fun sec => bardellI_comm (ξ₁ sec) (ξ₂ sec) η₁ η₂) s ha hb hr hF hpsd hab
+    (fun _ => bfun) (fun _ => bfun) ξ₁ ξ₂ (fun _ => -1) (fun _ => 1)
+    (fun sec hsec => bardellI_real_sub_full (ξ₁ sec) (ξ₂ sec) η₁ η₂ (hξ sec hsec)) m n row0 v
 
 end Compmech.Panel.C02
